@@ -95,20 +95,20 @@ def piecewise(rng, n, lo=(0.02, 0.3), hi=(0.3, 0.9), seg=(20, 200)):
 def small_params(kind):
     if kind == "DDM":
         return [{"n_threshold": n, "warning_scale": w, "drift_scale": d}
-                for n in (0, 1, 2, 3, 5) for (w, d) in ((2, 3), (0.5, 1.0), (1.5, 2.5))]
+                for n in (0, 1, 2, 3, 5) for (w, d) in ((2, 3), (0.5, 1.0), (1.5, 2.5), (3, 2), (1.0, 0.25))]   # (warning above drift is legal too)
     if kind == "EDDM":
         return [{"n_threshold": n, "warning_thresh": w, "drift_thresh": d}
-                for n in (0, 1, 2, 3) for (w, d) in ((0.95, 0.9), (0.99, 0.6), (0.8, 0.5))]
+                for n in (0, 1, 2, 3) for (w, d) in ((0.95, 0.9), (0.99, 0.6), (0.8, 0.5), (0.6, 0.9))]
     if kind == "STEPD":
         return [{"window_size": n, "alpha_warning": w, "alpha_drift": d}
-                for n in (1, 2, 3) for (w, d) in ((0.05, 0.003), (0.4, 0.3), (0.3, 0.05))]
+                for n in (1, 2, 3) for (w, d) in ((0.05, 0.003), (0.4, 0.3), (0.3, 0.05), (0.05, 0.3))]
 
 
 def random_params(kind, rng):
     if kind == "DDM":
         w = rng.choice([1.0, 1.5, 2, 2.0, 2.5])
         return {"n_threshold": rng.choice([1, 5, 10, 30, 30, 50]), "warning_scale": w,
-                "drift_scale": w + rng.choice([0.5, 1, 1.0, 1.5])}
+                "drift_scale": w + rng.choice([0.5, 1, 1.0, 1.5, -0.5, -0.75])}
     if kind == "EDDM":
         d = rng.choice([0.5, 0.7, 0.8, 0.9, 0.9])
         return {"n_threshold": rng.choice([1, 3, 10, 30, 30]), "drift_thresh": d,
